@@ -34,7 +34,7 @@ CLAIMED = {
              'zeros, invalid outside) - for every width, every format version and every listed call-sequence shape (shared / '
              'touching / disjoint data ranges, empty data, trailing data). Inputs the format cannot hold (out-of-range words, '
              '>64-bit fields, odd or out-of-pool data ranges) must be refused with FlipJumpWriteFjmException.',
-        note='LZMA is stubbed by its round-trip contract; struct/open/range stubs listed in evidence; dense/lazy zero-tail threshold '
+        note='LZMA is stubbed by its round-trip contract (the contract itself is validated per preset on the real Writer/Reader with an 11 MiB buffer); struct/open/range stubs listed in evidence; lazy zero tails are also read through the Reader\'s accessor; dense/lazy zero-tail threshold '
              'patched to 3 for the symbolic runs and re-checked concretely at 998..1002. Bounds: <=3 segments, <=8 data words.',
         technique=_T_PYSYM, ref='DESIGN.md 2/C06'),
     'C10': dict(
@@ -92,8 +92,8 @@ CLAIMED = {
         note='K=1 from ip 0 and K=2 with the C01 trampoline; label pretty-printing stubbed; terminal IO scripted.',
         technique=_T_PYSYM + '; product-program comparison', ref='DESIGN.md 2/C15'),
     'C03': dict(
-        text='Bounded symbolic verification: four macro-program shapes (nesting depth 2 and 3 with rep inside rep, namespaces with '
-             'relative names and arity overloading, an extern label and swapped parameters) are written with EVERY assignment of a 4-5 '
+        text='Bounded symbolic verification: five macro-program shapes (nesting depth 2 and 3 with rep inside rep, namespaces with '
+             'relative names and arity overloading, an extern label and swapped parameters, reps whose arguments do not mention the iterator) are written with EVERY assignment of a 4-5 '
              'name pool to their parameters, local labels, rep iterators and global labels that the language allows; each text and '
              'its binding-level inlining (locals renamed apart, reps unrolled) run through the real assembler with all numbers shared '
              'symbolic constants and symbolic rep counts (0 included); the two images are proved equal word by word, and equal '
@@ -123,17 +123,17 @@ CLAIMED = {
              'contract (mem_get_page stub) with the real page_compute_validity / page_cache_fill IR.',
         technique=_T_LLSX, ref='DESIGN.md 2/C07'),
     'C08': dict(
-        text='Bounded symbolic verification of 28 pointer macros (read/write/xor hex and byte through a pointer, *_and_inc, vector forms, '
+        text='Bounded symbolic verification of 31 pointer macros and mixed hex/byte sequences (read/write/xor hex and byte through a pointer, *_and_inc, vector forms, '
              'ptr_flip_dbit, ptr_wflip_2nd_word, nth read/write with negative indices, ptr_jump, pointer arithmetic on arbitrary pointer values) '
              'over a 3-cell buffer with symbolic contents - for every target cell and, through the re-entry check, every ordered pair of target '
-             'cells - and of 9 stack / call sequences (LIFO of hexes, bytes and vectors with sp restored, call over a used cell, call with '
+             'cells - and of 10 stack / call sequences (LIFO of hexes, bytes and vectors with sp restored, call over a used cell, call with '
              'parameters, call/return nested three deep with data pushes, nested fcall/fret) each executed twice.',
         note='The pointer is concrete per case (3 cells x 3 cells), every stored value symbolic. A run that leaves the documented control flow '
              '(jump into garbage) is replayed concretely on the real interpreter. bit-namespace pointers outside.',
         technique=_T_FJSX, ref='DESIGN.md 2/C08'),
     'C09': dict(
         text='Bounded symbolic verification of 37 IO macros: raw bit/byte output and input, ASCII hex digits in and out, casts, unsigned and '
-             'signed hex numerals without leading zeros (prefix, case), unsigned and signed DECIMAL printing (every value of 3-12 bits / 1-3 '
+             'signed hex numerals without leading zeros (prefix, case), unsigned and signed DECIMAL printing (every value of 3-9 bits / 1-2 '
              'hex digits; one alternative per digit count), decimal input with sign, stop byte and error branch over every input of k <= 3 '
              '(4) bytes. Output bits are proved equal to the documented byte string, input results to the documented parse.',
         note='hex/strings.fj helpers and bit.print_str outside. Three documentation defects found and fixed (bit.print_as_digit, bit.input n).',
